@@ -62,7 +62,7 @@ def jobs(tier):
     J.append(V.Job("map_compare_keys", H, "h_map_compare", [], unwind=4, shim=False, kind="proof", canary=True,
                    functions=["map_compare_keys"], bound="none: both 32-bit hash values and both key bytes symbolic; loop-free",
                    timeout=200, cbmc_flags=["--no-leak"]))
-    for c in (0, 1, 2, 3, 4, 6, 7, 8, 9, 10, 11, 12, 13, 14):     # case 15 (vnaproperty_copy of a list: dfs_copy extends the destination through the parser, "[i]") does not finish in 600 s either: not covered
+    for c in (0, 1, 2, 3, 4, 6, 7, 8, 9, 10, 11, 12, 13, 14):     # cases 5 and 15 (a numeric subscript: the scanner's digit loop and strtol run over the heap copy of the descriptor, which symex does not constant-fold) do not finish in 600 s: not covered
         J.append(V.Job("descriptor.case%d" % c, H, "h_descriptor", [], defines=["-DH_DESCRIPTOR", "-DDESC_CASE=%d" % c],
                        unwind=12, shim=False, kind="bounded", canary=(c == 0),
                        functions=["vnaproperty_vset", "vnaproperty_vget", "vnaproperty_vget_subtree", "vnaproperty_vdelete",
